@@ -59,7 +59,7 @@ theorem tie_sendStrings : sendStrings =
      "File segment %v extends past end of stream",
      "Block end %v comes before start of file segment %v"] := rfl
 
-/-- `parseManifestStream`: Model `pkgParseStream` (incl. the wrapping test `SegPos+SegLen > streamoffset`). -/
+/-- `parseManifestStream` after fixes 4f92334, b1a09e4: Model `pkgParseStream` / `pkgFileToks` (non-wrapping range test, canonical-path test for non-empty tokens). -/
 theorem tie_parseStreamConds : parseStreamConds = 
     ["if m.StreamName != \".\" && !strings.HasPrefix(m.StreamName, \"./\")",
      "for i < len(tokens)",
@@ -68,7 +68,8 @@ theorem tie_parseStreamConds : parseStreamConds =
      "if err != nil",
      "if len(fileTokens) == 0",
      "if err != nil",
-     "if pft.SegPos+pft.SegLen > streamoffset"] := rfl
+     "if pft.SegPos > streamoffset || pft.SegLen > streamoffset-pft.SegPos",
+   "if pft.SegLen > 0 && fixStreamName(m.StreamName+\"/\"+pft.Name) != m.StreamName+\"/\"+pft.Name"] := rfl
 
 /-- `parseFileStreamSegment`: Model `pkgFileTok`. -/
 theorem tie_parseFileTokConds : parseFileTokConds = 
@@ -121,7 +122,7 @@ theorem tie_textForPathConds : textForPathConds =
 /-- `fixStreamName`: Model `fixStreamName` over `pathClean`. -/
 theorem tie_fixStreamNameText : fixStreamNameText = "{ sn = path.Clean(sn) if strings.HasPrefix(sn, \"/\") { sn = \".\" + sn } else if sn != \".\" { sn = \"./\" + sn } return sn }" := rfl
 
-/-- `loadManifest` after fix c99b8a5 (`if blkLen > 0`): Model `fsLoad` / `fsToken` / `fsLoop`. -/
+/-- `loadManifest` after fixes c99b8a5 (`if blkLen > 0`) and 499e88b (`offset+length < offset`): Model `fsLoad` / `fsToken` / `fsLoop`. -/
 theorem tie_loadManifestConds : loadManifestConds = 
     ["if streams[len(streams)-1] != \"\"",
      "if i == 0",
@@ -132,7 +133,7 @@ theorem tie_loadManifestConds : loadManifestConds =
      "if len(segments) == 0",
      "if len(toks) != 3",
      "if err != nil || offset < 0",
-     "if err != nil || length < 0",
+     "if err != nil || length < 0 || offset+length < offset",
      "if fnode == nil && err == nil && length == 0",
      "if err != nil || (fnode == nil && length != 0)",
      "if pos > offset",
